@@ -6,6 +6,9 @@ LATE = {
  "C01-C": "rescaled and near-unit lattice points (every direction at several lengths within 1e-3 of 1)",
  "C02-D": "purity histories: expected values first, then an uninterrupted call sequence on one buffer mutated in place",
  "C05-D": "pairings outermost, one shared bit-identical state evaluated first and last on every joint",
+ "C05-E": "records at rational orientations that are not axis-aligned: joint bases from integer quaternions such as (2,1,0,0), rigid bodies at such orientations with integer inertial spin; positions, bases and every derivative direction carry a common denominator of their own and the kernel stays in integers",
+ "C05-F": "the same generic records (off the joint manifold, relative orientation not a quarter turn)",
+ "C06-E": "planes whose constant basis is a rational rotation that is not axis-aligned (`tilted`), the basis entering the kernel as F / s; bodies at rational non-octahedral orientations (`rigid*`)",
  "C06-C": "twin history: two identical contacts, `step_callback` on one of them between evaluations",
  "C07-D": "line load that varies along the rod (xi-dependent): quadrature rules no longer agree by accident",
  "C08-B": "every element object is evaluated at two or more states at the same `t` (quick tier: one object, two states, instead of two objects with one state each) and at the first state again (bitwise repeatability)",
@@ -37,15 +40,15 @@ LATE = {
 }
 rows = []
 for d in sorted(os.listdir(root)):
-    if not re.match(r'C\d\d-[A-D]$', d):
+    if not re.match(r'C\d\d-[A-H]$', d):
         continue
     notes = open(f'{root}/{d}/notes.md').read() if os.path.exists(f'{root}/{d}/notes.md') else ''
     title = ''
     for l in notes.splitlines():
         if l.startswith('#'):
             title = re.sub(r'^#+\s*', '', l)
-            title = re.sub(r'^(Seed|Change)\s+[A-D]\s*(\(C\d\d\))?\s*[-–:]*\s*', '', title, flags=re.I)
-            title = re.sub(r'^C\d\d\s*[/–-]?\s*(change|seed)?\s*[A-D]\s*[:–-]*\s*', '', title, flags=re.I)
+            title = re.sub(r'^(Seed|Change)\s+[A-H]\s*(\(C\d\d\))?\s*[-–:]*\s*', '', title, flags=re.I)
+            title = re.sub(r'^C\d\d\s*[/–-]?\s*(change|seed)?\s*[A-H]\s*[:–-]*\s*', '', title, flags=re.I)
             title = re.sub(r'^[—–-]\s*', '', title).strip(' "')
             title = re.sub(r'\s*\(cardillo/[^)]*\)', '', title)
             break
